@@ -48,12 +48,7 @@ Theorem C13_cache_states : forall (truth : calendar) t a,
     run_ok truth t a e -> Inv truth t a s ->
     lookups true e s ds = Ok (s', answers) ->
     CacheOk truth t a (s_cache s').
-Proof.
-  intros truth t a. split; [apply CacheProps.CacheOk_nil | ].
-  intros e s ds s' answers R I E.
-  destruct (CacheProps.lookups_step truth t a e ds s R I) as (s1 & E1 & I1).
-  rewrite E in E1. inversion E1; subst. exact (CacheProps.inv_cache _ _ _ _ I1).
-Qed.
+Proof. exact CacheProps.cache_states. Qed.
 Check C13_cache_states : forall (truth : calendar) t a,
   CacheOk truth t a [] /\
   forall e s ds s' answers,
@@ -74,11 +69,7 @@ Theorem C13_no_download_when_covered :
                s_dl s' = s_dl s /\ s_cache s' = s_cache s) /\
     (forall r, (forall x, d - 7 <= x <= d -> cache_has s x) ->
                effective true e s d = Ok (s', r) -> s_dl s' = s_dl s).
-Proof.
-  intros truth today avail e s d s' R I F. split.
-  - intros r H E. exact (CacheProps.exact_covered truth today avail e s d s' r I F H E).
-  - intros r H E. exact (CacheProps.effective_covered truth today avail e s d s' r R I F H E).
-Qed.
+Proof. exact CacheProps.no_download_when_covered. Qed.
 Check C13_no_download_when_covered :
   forall (truth : calendar) today avail e s d s',
     run_ok truth today avail e -> Inv truth today avail s -> e_force e = false ->
@@ -101,11 +92,7 @@ Theorem C13_unfixed_stale_within_run_refuted :
     exists s outs,
       history false empty_st runs = Ok (s, outs) /\
       map fst outs <> ref_answers truth runs params.
-Proof.
-  exists ex_truth, ex_runs, ex_params. split; [exact CacheProps.ex_runs_ok | ].
-  destruct CacheProps.unfixed_stale as (s & outs & E & N & _).
-  exists s, outs. split; assumption.
-Qed.
+Proof. exact CacheProps.unfixed_stale_refuted. Qed.
 Check C13_unfixed_stale_within_run_refuted :
   exists (truth : calendar) runs params,
     runs_ok truth 0 0 runs params /\
@@ -124,7 +111,4 @@ Example C13_nonvacuous :
     history true empty_st ex_runs = Ok (s, outs) /\
     map fst outs = ref_answers ex_truth ex_runs ex_params /\
     map snd outs = [[2022]; [2022]].
-Proof.
-  split; [exact CacheProps.ex_runs_ok | ]. split; [apply CacheProps.CacheOk_nil | ].
-  exact CacheProps.fixed_example.
-Qed.
+Proof. exact CacheProps.c13_example. Qed.
